@@ -373,6 +373,12 @@ func c13Worker(w *W) {
 						apMu.Lock()
 						ap.Stop()
 						err := ap.Start()
+						if err == nil && (i/9)%2 == 1 {
+							// an incarnation that is started on the existing file and stopped again without having written anything
+							ap.Stop()
+							err = ap.Start()
+							restarts.Add(1)
+						}
 						apMu.Unlock()
 						restarts.Add(1)
 						if err != nil {
@@ -435,7 +441,7 @@ func c13Worker(w *W) {
 			}
 		}(g)
 	}
-	cycles := 0
+	cycles, idleIncarnations := 0, 0
 	if mode == "stopstart" {
 		// Stop/Start cycles several times per second (no write is in progress during a cycle)
 		for time.Now().Before(stopAt) {
@@ -446,6 +452,16 @@ func c13Worker(w *W) {
 				ap = mk() // a fresh appender on the same directory ...
 			} // ... or the very same instance started again
 			err := ap.Start()
+			if err == nil && cycles%3 == 1 {
+				// an idle incarnation: started on the directory (usually on the file of the running second) and stopped again
+				// before anybody wrote through it. What earlier incarnations wrote stays where it is.
+				ap.Stop()
+				if cycles%2 == 1 {
+					ap = mk()
+				}
+				err = ap.Start()
+				idleIncarnations++
+			}
 			apMu.Unlock()
 			cycles++
 			if err != nil {
@@ -588,6 +604,7 @@ func c13Worker(w *W) {
 	w.Count("writers_held_across_boundary", holds.Load())
 	w.Count("records_landed_in_previous_file", int64(inPrev))
 	w.Count("stop_start_cycles", int64(cycles))
+	w.Count("idle_incarnations_on_an_existing_file", int64(idleIncarnations))
 	w.Count("rotations_won", y.counts()["roll.rotate.cas"])
 	w.Count("rotation_attempts", y.counts()["roll.rotate.checked"])
 	if mode == "idleburst" {
